@@ -1,11 +1,30 @@
 #!/bin/bash
-# run_seed.sh <seed dir name> [tier] : apply a seeded change to /repo, run the property's check, undo.
+# run_seed.sh <seed dir name> [tier] [property] : apply a seeded change to /repo, run the
+# property's check, undo it straight afterwards, and record the outcome in the seed's meta.json.
 set -u
 d=/verif/seeded/$1; tier=${2:-quick}
-prop=$(python3 -c "import json;print(json.load(open('$d/meta.json'))['property'])")
+prop=${3:-$(python3 -c "import json;print(json.load(open('$d/meta.json'))['property'])")}
 git -C /repo diff --quiet || { echo "/repo not clean"; exit 2; }
 git -C /repo apply "$d/patch.diff" || exit 2
 /verif/bin/check $prop --tier $tier > /tmp/seedrun-$1.log 2>&1; rc=$?
 git -C /repo checkout -- .
+python3 - "$d" "$prop" "$tier" "$rc" /tmp/seedrun-$1.log <<'PY'
+import json, re, subprocess, sys, time
+d, prop, tier, rc, log = sys.argv[1:6]
+text = open(log).read()
+obs = re.findall(r"^  obligation (\S+):", text, re.M)
+m = json.load(open(d + "/meta.json"))
+rec = {"cmd": f"bin/check {prop} --tier {tier}", "exit": int(rc), "violated_obligations": obs,
+       "verif_commit": subprocess.run(["git", "-C", "/verif", "rev-parse", "--short", "HEAD"], capture_output=True, text=True).stdout.strip(),
+       "at": time.strftime("%Y-%m-%dT%H:%M:%SZ", time.gmtime())}
+m["checks_run"] = [r for r in m.get("checks_run", []) if r.get("cmd") != rec["cmd"]] + [rec]
+hits = [r for r in m["checks_run"] if r["exit"] == 1 and r["violated_obligations"]]
+if hits:
+    best = sorted(hits, key=lambda r: "thorough" in r["cmd"])[0]
+    m["caught_by"] = ", ".join(best["violated_obligations"]) + (" (thorough tier)" if "thorough" in best["cmd"] else "")
+else:
+    m["caught_by"] = ""
+json.dump(m, open(d + "/meta.json", "w"), indent=1)
+PY
 echo "SEED $1 ($prop, $tier): exit=$rc $(grep -c '^VIOLATION' /tmp/seedrun-$1.log) violation(s): $(grep -E '^  obligation' /tmp/seedrun-$1.log | cut -c1-160 | tr '\n' ' ')"
 grep -E "in-language|native replay" /tmp/seedrun-$1.log | cut -c1-200
